@@ -46,6 +46,8 @@ CATALOG = {
     "C13": [S("s-c13-existing", "c13_existing", {"quick": True}, {"quick": False}, shards=8, functions=[GRAMMAR, FIND]),
             S("s-c13-unusable", "c13_unusable", {"quick": True}, {"quick": False}, shards=4, functions=[GRAMMAR, FIND]),
             S("s-c13-new", "c10_templates", {"structured": True, "quick": True}, {"structured": True, "quick": False}, shards=6)],
+    "C05": [S("s-c05-positions-plain", "c10_templates", {"structured": False, "quick": True}, {"structured": False, "quick": False}, shards=6),
+            S("s-c05-positions-structured", "c10_templates", {"structured": True, "quick": True}, {"structured": True, "quick": False}, shards=6)],
     "C14": [S("s-c14-directives", "c14_directives", {"quick": True}, {"quick": False}, shards=12, functions=[GRAMMAR, FIND, REGEXES, DIRECTIVE])],
     "C17": [S("s-c17-validate", "validation_only", {}, functions=[GRAMMAR, FIND, DIRECTIVE])],
 }
@@ -120,6 +122,11 @@ def absorb(out, prop, ob, rec):
         out.replayed += val.get("compared", 0)
     for err in rec["errors"]:
         out.inconclusive_because(name, err)
+    if val and val.get("linecol") and prop == "C05":
+        for text, structured, lc in val["linecol"][:3]:
+            out.violation("conformance-linecol", "reported line/column differ from the line/column of the insertion offset",
+                          {"engine": "native", "input": text, "structured": structured, "mismatch": lc,
+                           "note": "found by running the real find() on the validation corpus (a conformance run, not a solver verdict)"})
     if val and val.get("diffs"):
         out.inconclusive_because(name, "encoder disagrees with the real find() on %d validation input(s), e.g. %r" % (
             len(val["diffs"]), val["diffs"][0]))
@@ -130,6 +137,18 @@ def absorb(out, prop, ob, rec):
         out.evaluations += 1 + (1 if r.get("twin") else 0)
         out.solver_time += r.get("seconds") or 0
         out.bounds[qn] = r.get("bound")
+        if r["verdict"] == "holds" and r.get("instance") and r.get("expect"):
+            # conformance: a solver-chosen instance of the template goes through the real find()
+            inst = dict(r, witness={"text": r["instance"]})
+            rep = native_replay.replay(prop, inst)
+            out.replayed += 1
+            lc = native_replay.linecol(r["instance"], r["expect"]) if prop == "C05" else []
+            if rep.get("reproduced") or lc:
+                out.violation(qn + "-instance", "the real find() does not behave as the model on a template instance %s" % r.get("class", ""),
+                              {"engine": "S+native", "query": qn, "witness": {"text": r["instance"]}, "native": rep, "linecol": lc,
+                               "note": "model holds (unsat) but the real code deviates on this solver-chosen instance: find() glue differs from its contract"})
+                out.add_obligation(qn, "S", "violated", seconds=r["seconds"], witness=r["instance"], native=rep)
+                continue
         if r["verdict"] == "holds":
             out.nontrivial.add(qn)
             out.add_obligation(qn, "S", "holds", seconds=r["seconds"], twin=r.get("twin"), bound=r.get("bound"))
